@@ -27,6 +27,8 @@ type vfExec struct {
 	Closed    *vfTree
 	ClosedErr error
 	CloseErr  error
+	// RefCounts: object reference counts of the closed file by path (filled by C16)
+	RefCounts string
 }
 
 func (e *vfExec) LastErr() error {
